@@ -14,14 +14,30 @@ MANIFEST = {
             "Confirmables frees one slot each), an ICMP error read from the socket (icmp_changes_only_output: the in-flight CONs stay "
             "counted), keepalive (ping loop of coap_io_prepare_io_lkd, coap_session_send_ping_lkd, last_rx_tx/last_ping_mid, the clamp "
             "of the retransmission delay, the is_ping_rst case of the RST branch: a ping takes and frees a slot like any CON); "
-            "x_agrees_with_base.  M is tied to the compiled code on every run by exact trace equality on the virtual-time simulation "
+            "x_agrees_with_base.  (Round 4) a piggy-backed response (ACK carrying a response and a token: ACK branch of coap_dispatch + "
+            "handle_response incl. the last_ack_mid duplicate check) is an event of MsgLayerX: it concludes the message whose id it "
+            "carries and no other (piggybacked_ack_concludes_only_its_own), and when its id is no longer in the send queue (the "
+            "network's duplicate, a late copy) it changes nothing but the output whatever token it carries "
+            "(unmatched_piggybacked_ack_changes_only_output); DTLS sessions are sessions of MsgLayerX (the guards "
+            "COAP_PROTO_NOT_RELIABLE of every con_active update are open for both datagram transports; the DTLS branch of "
+            "coap_session_disconnected_lkd leaves state NONE): con_active_eq_inflight_le_nstart_dtls, no_idle_hold_dtls, failure_dtls "
+            "for every mix of UDP and DTLS sessions and every event sequence.  M is tied to the compiled code on every run by exact trace equality on the virtual-time simulation "
             "harness (first-transmission order, con_active / delay-queue / send-queue after every event, NACK log) over bursts of 1..20 "
             "CON/NON, NSTART 1..4, lost/duplicated/late ACK and RST, shared tokens + separate responses, ICMP errors, keepalive 1..10 s "
-            "with pong / ACK / loss; the property's clauses are also judged on the implementation's trace alone.",
+            "with pong / ACK / loss, piggy-backed responses duplicated / late / stray, and every kind of scenario on DTLS sessions "
+            "(session->proto == COAP_PROTO_DTLS with libcoap's DTLS layer table; the record layer is the identity) next to UDP "
+            "sessions; the property's clauses are also judged on the implementation's trace alone, incl. (round 4) 'in flight' as the "
+            "property defines it - sent and neither acknowledged, reset nor given up, kept as a ledger from the transmissions and the "
+            "peer's replies without looking at the library's queues - never exceeding NSTART.",
     "note": "Trusted: Lean kernel (+ propext, Classical.choice, Quot.sound), harness/sim_core.h + msg.c, Driver/Msg.lean, generators/oracles, "
             "the hand transcription M (checked on the cases run only).  NSTART <= 255 (con_active is a uint8_t).  'Not established' is "
             "produced on UDP sessions by setting session->state as a DTLS session would.  The double NACK of the first IN-FLIGHT message "
-            "on disconnect (DESIGN §5 row 22) is modelled as is: the property's failure clause concerns held messages.  Not modelled: the "
+            "on disconnect (DESIGN §5 row 22) is modelled as is: the property's failure clause concerns held messages.  DTLS sessions of "
+            "the simulation harness have the identity as record layer (coap_dtls_send / coap_dtls_receive / coap_dtls_free_session / "
+            "coap_dtls_get_timeout replaced at link time): libcoap's own code runs as on an established DTLS session, GnuTLS does not "
+            "(sessions with the real GnuTLS: C19).  The in-flight ledger is an observation on the traces run, not a theorem (the "
+            "theorems bound the nodes in the send queue; that a node leaves the queue only when its exchange is concluded is proved "
+            "for the piggy-backed ACK and tied for the rest).  Not modelled: the "
             "RFC 8974 extended-token probe (the other library-generated Confirmable whose RST takes the is_ext_token_rst path), keepalive "
             "longer than ACK_TIMEOUT is not generated (the wait returned after a ping ignores the ping's own deadline: C06 territory).",
     "design_ref": "DESIGN.md §4 C08, design/C08.md",
@@ -36,31 +52,49 @@ REQUIRED_THEOREMS = ["wf_step", "con_active_eq_inflight", "inflight_le_nstart", 
                      "held_fifo_exactly_once_x", "held_fifo_exactly_once_x_run", "icmp_changes_only_output",
                      "x_agrees_with_base", "submitT_mid_is_submit",
                      # "later transmitted as earlier exchanges finish"
-                     "no_idle_hold", "no_idle_hold_x"]
+                     "no_idle_hold", "no_idle_hold_x",
+                     # round 4: piggy-backed responses, DTLS sessions
+                     "piggybacked_ack_concludes_only_its_own", "unmatched_piggybacked_ack_changes_only_output",
+                     "con_active_eq_inflight_le_nstart_dtls", "no_idle_hold_dtls", "failure_dtls"]
 RULE = ("scenario lines for harness/msg.c: bursts of 1..20 CON/NON on 1-3 UDP client sessions of one context, NSTART 1..4, "
         "scripted peer answering each transmission by ACK / RST / nothing, once or twice, after delays placed around the "
         "retransmission timers; stray and duplicated ACK/RST, NON with colliding ids, replies with invalid codes, "
         "cancel-by-token; sessions taken out of ESTABLISHED and brought up again, session failure; lines with the extended events: "
         "1..12 submissions sharing 1..3 tokens + separate (NON) responses carrying them, ICMP errors read from the socket, keepalive "
         "1..10 s (<= ACK_TIMEOUT) switched on/off with silent periods around the ping time and pong (RST) / ACK / loss as fates, and "
-        "mixtures; the corpus of minimal defect witnesses; non-trivial = distinct line on which at least one message was held in "
+        "mixtures; piggy-backed responses (ACK + 2.05 + token) as the peer's answer, delivered once or twice (duplicate / late copy "
+        "arriving while later messages that may share the token are in flight or after the request was given up) and as stray "
+        "events for in-flight / concluded / held / unknown ids; a third of all sessions are DTLS sessions (7th field of the session "
+        "word = 2), every burst size x NSTART also on a DTLS session; the corpus of minimal defect witnesses; non-trivial = distinct line on which at least one message was held in "
         "the delay queue")
 TRUSTED_BASE = ["Lean 4.33 kernel; axioms allowed: propext, Classical.choice, Quot.sound (audited per theorem each run)",
                 "harness/sim_core.h + harness/msg.c, the scenario interpreter in Driver/Msg.lean, generators and oracles in vlib/msglib.py",
                 "M (Model/MsgLayer.lean + Model/MsgLayerX.lean over Model/SendQueue.lean) is a hand transcription of coap_send_pdu's gate, "
                 "coap_session_delay_pdu, coap_session_connected, coap_session_disconnected_lkd (both reasons), coap_cancel_all_messages, "
-                "the keepalive loop, coap_session_send_ping_lkd, the RST branch incl. is_ping_rst and every con_active update; "
+                "the keepalive loop, coap_session_send_ping_lkd, the RST branch incl. is_ping_rst, the ACK branch + handle_response for "
+                "a piggy-backed response, the UDP / DTLS branch of coap_session_disconnected_lkd and every con_active update; "
                 "checked against the compiled code by exact trace equality incl. con_active and queue contents after every event",
                 "last_rx_tx is stamped in M after each step for every session that transmitted in it (the C code stamps it inside "
                 "coap_netif_dgrm_write); the index arithmetic by which M follows the pointer p of coap_cancel_all_messages across "
-                "insertions (cancelWalk) is an emulation of pointer identity, tied to the code on the cases run"]
-ASSUMPTIONS = ["NSTART <= 255 (con_active is a uint8_t)", "UDP client sessions; 'not established' is produced by setting "
+                "insertions (cancelWalk) is an emulation of pointer identity, tied to the code on the cases run",
+                "DTLS sessions of harness/msg.c: a UDP client session turned into a DTLS session (proto, coap_layers_coap[COAP_PROTO_DTLS], "
+                "non-NULL session->tls, coap_session_connected()) whose record layer is the identity: --wrap of coap_dtls_send (-> "
+                "lfunc[COAP_LAYER_TLS].l_write, as GnuTLS' push callback), coap_dtls_receive (-> coap_handle_dgram, as after "
+                "gnutls_record_recv), coap_dtls_free_session, coap_dtls_get_timeout; GnuTLS itself is not exercised here (C19 does)",
+                "vlib/msglib.InFlightLedger: the property's definition of 'in flight' replayed on the implementation's trace (scripted "
+                "peer re-computed from the fates; errs on the side of silence)"]
+ASSUMPTIONS = ["NSTART <= 255 (con_active is a uint8_t)", "UDP and DTLS client sessions (DTLS: identity record layer, see TRUSTED_BASE); "
+               "a separate response carrying a request's token counts as its acknowledgement (RFC 7252 5.2.2, D16); "
+               "'not established' is produced by setting "
                "session->state as a (D)TLS handshake would, 'comes up' by coap_session_connected(), 'fails' by "
                "coap_session_disconnected(NOT_DELIVERABLE); an ICMP error is a real read of -2 from the (wrapped) socket; "
                "keepalive <= ACK_TIMEOUT; message ids chosen by the application stay clear of the library's ping ids",
                "compiled Lean definitions agree with the kernel's reading of them"]
 SPEC_DECISIONS = ["D14 an outcome NACK carries the sent PDU", "D15 a NON submitted before the session is established keeps its place "
-                  "in the submission order; 'not delayed by NSTART' is about established sessions"]
+                  "in the submission order; 'not delayed by NSTART' is about established sessions",
+                  "D16 'acknowledged' includes: a separate (CON/NON) response carrying the request's token has arrived (RFC 7252 5.2.2: "
+                  "the client stops retransmitting; the peer has the request) - an ACK for ANOTHER message id acknowledges nothing, "
+                  "whatever token it carries"]
 
 
 def harness(ctx):
@@ -72,11 +106,22 @@ def bursts(rng):
     out = []
     for nstart in (1, 2, 3, 4):
         for n in (1, 2, 3, 5, 8, 13, 20):
-            for _ in range(6):
+            for j in range(6):
                 p = L.rand_params(rng)
                 evs = ["s:0:%s:%d:%d" % ("c" if rng.random() < 0.8 else "n", 200 + k, rng.randrange(256)) for k in range(n)]
                 fates = [L.gen_fate(rng, []) for _ in range(rng.randint(0, 4 * n))]
-                out.append("msg %s %s %s g:3000" % (L.sess_word(p, nstart), ",".join(fates) if fates else "-", " ".join(evs)))
+                # every burst size x NSTART on both datagram transports: j = 0, 1 on a DTLS session (sess word ….2)
+                out.append("msg %s %s %s g:3000" % (L.sess_word(p, nstart, 2 if j < 2 else 1), ",".join(fates) if fates else "-", " ".join(evs)))
+    # bursts of Confirmables that SHARE a token (a strictly serial client may do that: RFC 7252 5.3.1), every one answered by a
+    # piggy-backed response that the network duplicates (the copy arrives while a later message of the burst is in flight)
+    for nstart in (1, 2, 3):
+        for n in (2, 3, 5, 8):
+            for j in range(3):
+                p = L.rand_params(rng)
+                tok = rng.choice([0, 7, 66, 65535])
+                evs = ["S:0:c:%d:%d:%d" % (200 + k, rng.randrange(256), tok) for k in range(n)]
+                fates = [rng.choice(["P%d+%d" % (d, d + e) for d in (0, 1, 50) for e in (0, 1, 400, 1000)] + ["p0", "a0", "d"]) for _ in range(2 * n)]
+                out.append("msg %s %s %s g:3000" % (L.sess_word(p, nstart, 2 if j == 0 else 1), ",".join(fates), " ".join(evs)))
     return out
 
 
@@ -122,6 +167,10 @@ def classify(c):
         k += ":icmp"
     if " k:" in c["input"]:
         k += ":ka"
+    if " p:" in c["input"] or any(f[:1] in "pP" for f in w[2].split(",")):
+        k += ":pig"
+    if any(p.count(".") == 6 and p.endswith(".2") for p in w[1].split(",")):
+        k += ":dtls"
     return k
 
 
